@@ -23,9 +23,11 @@ GEN = True
 THEOREMS = ["constants_are_protocol", "typed_by_command", "none_iff_no_answer_expected",
             "tridonic_table", "hasseb_table", "daliserver_table", "luba_table", "sci_table", "atx_table",
             "tri_ignores_unknown", "seqAt_range", "seqAt_closed", "seqAt_eq_iff",
-            "routing_tridonic", "routing_slot", "routing_queue"]
+            "routing_tridonic", "routing_slot", "routing_queue", "routing_queue_complete", "routing_hat",
+            "hat_idle_clean"]
 TRUSTED = ["hand-written models Model/Answer.lean (status -> response code of six drivers) and Model/Routing.lean "
-           "(outstanding-by-sequence-number; single slot; flushed queue), tied by this correspondence: pure mappings "
+           "(outstanding-by-sequence-number; single slot; flushed queue; the ATX hat's port lock), tied by this "
+           "correspondence: pure mappings "
            "exhaustively over status/type codes x bytes x command kinds, routing by trace validation of the real "
            "drivers in a virtual-time loop",
            "Spec/AnswerTable.lean: protocol literals of the gateways (pinned where not independently known)",
@@ -34,10 +36,14 @@ ASSUMPTIONS = ["routing_tridonic: a report about a command arrives only after th
                "255 further sequence numbers have been drawn (Timely)",
                "single-slot gateways (hasseb, LUBA, SCI): 'own answer' means stored after the caller's own flush; "
                "a late answer of the previous command arriving after the flush cannot be told apart by the protocol",
-               "sends are serialised by the transaction lock (C15)"]
+               "sends are serialised by the transaction lock (C15)",
+               "routing_hat: the hat prints the reply line(s) of a transmission before the sender's five reads are "
+               "used up (`release` is enabled only with no line owed); a hat that answers later leaves a stale line"]
 PARTIAL = ("the routing theorems are about abstract transition systems for every event order; that the real event "
            "loop only produces orders the model allows is validated on the explored schedules (1-3 callers, every "
-           "report order incl. stale/late/duplicate reports), not proved. hasseb returns None for a query on an "
+           "report order incl. stale/late/duplicate reports; LUBA/SCI reports delivered separately, in one chunk, "
+           "back to back and straddling a chunk boundary; the ATX hat driver from two threads with a deterministic "
+           "hand-over at thread 1's first/second timed-out read), not proved. hasseb returns None for a query on an "
            "unknown status code (outside the protocol; witness example in Props). The ATX hat driver's resend path "
            "raises AttributeError (bytes.encode) on a collision line 'Z' or on two differing answers to a send-twice "
            "command, and returns a bare frame / raw text for a non-query answered 'J'/'X' - outside the property's "
@@ -176,7 +182,9 @@ def correspond(ctx, corr):
         "boundary bytes otherwise) x {16,24 bit} x {query, non-query, send-twice} on the real driver vs model; "
         "every concrete command class (%d) x {silent, value, garbled} vs the answer table; routing: real drivers "
         "in virtual time, 1-3 callers, every interleaving of the gateway's reports incl. stale/late/duplicate "
-        "reports and sequence-number wrap; non-trivial = distinct (gateway, command kind, outcome class)" % len(allcmds))
+        "reports and sequence-number wrap; LUBA/SCI: the reports of one transmission delivered separately / in one "
+        "chunk / back to back / straddling a chunk boundary, single and queued callers; ATX hat: two threads on one "
+        "driver object, every pair of command kinds x outcomes; non-trivial = distinct (gateway, command kind, outcome class)" % len(allcmds))
     consts = ask(["consts"])[0]
     if consts != "ok 1":
         corr.disagree("constants", "consts", consts, "driver constants differ from the protocol literals of Spec/AnswerTable")
@@ -1065,14 +1073,17 @@ class HatPort:
         self.events.append("thread %s writes %r" % (who, data.decode("ascii").strip()))
         wait = self.slow[self.nwrites] if self.nwrites < len(self.slow) else 0
         self.nwrites += 1
-        for line in self.answers.get(data, [b"N\n"]):
-            self.pending.append([wait, line])
+        lines = self.answers.get(data, [b"N\n"])
+        self.sched.trace.append(("W.%s.%d" % (who, len(lines)), "-"))
+        for line in lines:
+            self.pending.append([wait, line, who])
             wait = 0
 
     def read_until(self, term=b"\n"):
         who = self.sched.who()
         if self.pending and self.pending[0][0] <= 0:
-            line = self.pending.pop(0)[1]
+            _, line, owner = self.pending.pop(0)
+            self.sched.trace.append(("G.%s" % who, "from=%s" % owner))
             self.events.append("thread %s reads %r" % (who, line.decode("ascii").strip()))
             return line
         if self.pending:
@@ -1103,6 +1114,7 @@ class HandOff:
         self.at_lock2 = threading.Event()
         self.done2 = threading.Event()
         self.problems = []
+        self.trace = []                 # (model event, what happened) in real order
 
     def who(self):
         return self.ids.get(self.threading.get_ident(), "?")
@@ -1120,22 +1132,30 @@ class HandOff:
         inner = self.threading.RLock()
 
         class Lock:
-            depth = 0
+            owner, depth = None, 0
 
             def acquire(self, *a, **kw):
-                if sched.who() == 2:
+                me = sched.who()
+                if me == 2:
                     sched.at_lock2.set()
                 r = inner.acquire(*a, **kw)
-                if r and sched.who() == 1:
+                if r:
+                    if Lock.owner != me:
+                        Lock.owner, Lock.depth = me, 0
                     Lock.depth += 1
+                    if Lock.depth == 1:
+                        sched.trace.append(("A.%s" % me, "-"))
                 return r
 
             def release(self):
                 me = sched.who()
-                if me == 1:
-                    Lock.depth -= 1
+                Lock.depth -= 1
+                free = Lock.depth == 0
+                if free:
+                    Lock.owner = None
+                    sched.trace.append(("R.%s" % me, "-"))
                 inner.release()
-                if me == 1 and Lock.depth == 0 and sched.go2.is_set() and not sched.done2.is_set():
+                if me == 1 and free and sched.go2.is_set() and not sched.done2.is_set():
                     if not sched.done2.wait(10):
                         sched.problems.append("thread 2 did not finish while thread 1 was off the lock")
 
@@ -1204,6 +1224,12 @@ def route_atx_threads(ctx, corr, ids, picks, found):
                    "thread 2": "%s, bus %s, started at thread 1's time-out no. %d" % (c2, bus2, at)}
         for p in sched.problems:
             corr.disagree("atx_threads", history, "schedule completes", p)
+        # model vs code: the port's lock / write / read events are a run of the hat model, line by line
+        line = "hatroute " + " ".join(e for e, _ in sched.trace)
+        ans = ask([line])[0]
+        got = ans.split()[1:] if ans.startswith("ok") else [ans]
+        if got != [o for _, o in sched.trace]:
+            corr.disagree("atx_threads", dict(history, trace=line), got, [o for _, o in sched.trace])
         for n, c, bus in ((1, c1, bus1), (2, c2, bus2)):
             if n not in results:
                 corr.violate("routing:atx:hang", dict(history, caller=n), "send() returns", "thread %d still inside send()" % n,
@@ -1256,7 +1282,9 @@ LEVEL_TEXT = ("Lean 4 theorems: for each of the six drivers the status->response
               "Spec/AnswerTable); routing: in every reachable state of the outstanding-by-sequence-number model each "
               "queued report is about the command of the caller that owns the list, including 255-cycle wrap "
               "(routing_tridonic), and the single-slot / flushed-queue models hand a caller only reports stored "
-              "after its own flush (routing_slot, routing_queue). Models tied to the real drivers exhaustively "
+              "after its own flush (routing_slot, routing_queue) and never lose a byte queued after it "
+              "(routing_queue_complete); with the ATX hat's port lock held across the exchange every reply line is "
+              "read by the thread that transmitted (routing_hat). Models tied to the real drivers exhaustively "
               "(status codes x bytes) and by trace validation in a virtual-time loop.")
 LEVEL_NOTE = ("Trusted: Lean kernel; hand-written models tied by exhaustive differential execution (pure mappings) "
               "and trace validation (routing; explored schedules only); protocol literals of Spec/AnswerTable pinned; "
